@@ -43,6 +43,7 @@ theorem subframe_wf (cfg : SubCfg) (xs : List Int) (bps : Nat) (log log' : List 
     exact hwf
   · obtain ⟨coefs, shift, precision, errors, prc, hmem, hce, hsearch, rfl⟩ := hs
     obtain ⟨hc1, hc32, hp1, hp15, hs0, hs15, hcr⟩ := hlog _ (hsub _ hmem)
+    replace hc32 : coefs.length ≤ 32 := by unfold maxLpcOrder at hc32; omega
     obtain ⟨hel, hef⟩ := computeError_fits coefs shift.toNat xs errors hce
     have hwf := residual_wf_of_search errors coefs.length cfg.maxP prc hef
       (by rw [hel]; omega) (by rw [hel]; exact hlen) hmax hsearch
